@@ -87,7 +87,23 @@ class FileSystemLoader(BaseLoader):
         return TemplateSource(
             source,
             str(source_path),
-            partial(self._uptodate, source_path, mtime),
+            partial(self._is_fresh, template_name, source_path, mtime),
+        )
+
+    def _is_fresh(self, template_name: str, source_path: Path, mtime: float) -> bool:
+        # A file with the same name might have appeared in an earlier search path.
+        try:
+            if self.resolve_path(template_name) != source_path:
+                return False
+        except TemplateNotFoundError:
+            return False
+        return self._uptodate(source_path, mtime)
+
+    async def _is_fresh_async(
+        self, template_name: str, source_path: Path, mtime: float
+    ) -> bool:
+        return await asyncio.get_running_loop().run_in_executor(
+            None, self._is_fresh, template_name, source_path, mtime
         )
 
     @staticmethod
@@ -117,5 +133,7 @@ class FileSystemLoader(BaseLoader):
         source_path = await loop.run_in_executor(None, self.resolve_path, template_name)
         source, mtime = await loop.run_in_executor(None, self._read, source_path)
         return TemplateSource(
-            source, str(source_path), partial(self._uptodate_async, source_path, mtime)
+            source,
+            str(source_path),
+            partial(self._is_fresh_async, template_name, source_path, mtime),
         )
